@@ -8,6 +8,7 @@
 import Driver.Util
 import JanetModel.Bytecode.Exec
 import JanetModel.Emit.Cmd
+import JanetModel.Lang.Sem
 open Driver JanetModel.Bytecode.Exec
 
 structure DState where
@@ -54,6 +55,50 @@ partial def pairInts : List String → List (Int × Int)
   | a :: b :: rest => (a.toInt!, b.toInt!) :: pairInts rest
   | _ => []
 
+/-- tokens written by harness/C02/expand.janet -> core-language form -/
+partial def parseExpr : List String → JanetModel.Lang.Expr × List String
+  | [] => (.lit .nil, [])
+  | tok :: rest =>
+    let body := (tok.drop 1).toString
+    let many (n : Nat) (rest : List String) : List JanetModel.Lang.Expr × List String :=
+      (List.range n).foldl (fun (acc : List JanetModel.Lang.Expr × List String) _ =>
+        let (e, r) := parseExpr acc.2
+        (acc.1 ++ [e], r)) ([], rest)
+    match tok with
+    | "N" => (.lit .nil, rest)
+    | "B1" => (.lit (.bool true), rest)
+    | "B0" => (.lit (.bool false), rest)
+    | "(" =>
+      match rest with
+      | l :: c :: n :: rest' =>
+        let (xs, r) := many n.toNat! rest'
+        (.form xs { line := l.toInt!, col := c.toInt! }, r)
+      | _ => (.lit .nil, [])
+    | "[" => match rest with
+      | n :: rest' => let (xs, r) := many n.toNat! rest'; (.btup xs, r)
+      | _ => (.lit .nil, [])
+    | "A" => match rest with
+      | n :: rest' => let (xs, r) := many n.toNat! rest'; (.arr xs, r)
+      | _ => (.lit .nil, [])
+    | "S" => match rest with
+      | n :: rest' => let (xs, r) := many n.toNat! rest'; (.stc xs, r)
+      | _ => (.lit .nil, [])
+    | "T" => match rest with
+      | n :: rest' => let (xs, r) := many n.toNat! rest'; (.tbl xs, r)
+      | _ => (.lit .nil, [])
+    | _ =>
+      match tok.front with
+      | 'i' => (.lit (.num (Float.ofInt body.toInt!)), rest)
+      | 'r' =>
+        let bs := (bytesOfHex body).getD []
+        let bits := (bs.zipIdx.map (fun (b, i) => b * 256 ^ i)).foldl (· + ·) 0
+        (.lit (.num (Float.ofBits (UInt64.ofNat bits))), rest)
+      | 's' => (.lit (.str (hexStr body)), rest)
+      | 'y' => (.sym (hexStr body), rest)
+      | 'k' => (.lit (.kw (hexStr body)), rest)
+      | 'c' => (.lit (.cfun (hexStr body)), rest)
+      | _ => (.lit (.cfun "<unsupported-constant>"), rest)
+
 def modLast (s : DState) (f : FuncDef → FuncDef) : DState :=
   if s.defs.size == 0 then s else { s with defs := s.defs.modify (s.defs.size - 1) f }
 
@@ -80,6 +125,18 @@ def step (s : DState) (toks : List String) : DState × String :=
         "X " ++ serErr st.heap v ++ " " ++ toString (if pos.line == -1 then -1 else pos.line - e0.toInt!) ++ " " ++ toString pos.col
           ++ String.join (st.trace.toList.map ("\t" ++ ·))
       | .inr (.timeout, _) => "U timeout"
+    (s, out)
+  | "sem" :: _ :: e0 :: n :: toks =>
+    let (forms, _) := (List.range n.toNat!).foldl (fun (acc : List JanetModel.Lang.Expr × List String) _ =>
+      let (e, r) := parseExpr acc.2
+      (acc.1 ++ [e], r)) ([], toks)
+    let out := match JanetModel.Lang.runProgram 200000 forms with
+      | .ok _ ss => "V " ++ ser ss.st.heap ss.st.result ++ String.join (ss.st.trace.toList.map ("\t" ++ ·))
+      | .err v pos ss =>
+        "X " ++ serErr ss.st.heap v ++ " " ++ toString (if pos.line == -1 then -1 else pos.line - e0.toInt!) ++ " " ++ toString pos.col
+          ++ String.join (ss.st.trace.toList.map ("\t" ++ ·))
+      | .brk _ _ => "U break-at-top"
+      | .stop w => "U " ++ w
     (s, out)
   | "skip" :: _ => (s, "skip")
   | _ => (s, "bad-op")
